@@ -33,6 +33,9 @@ pub enum C18Case {
         /// lines end in CR LF
         #[serde(default)]
         crlf: bool,
+        /// three-column BED (1), also with a trailing blank (2) or a trailing tab (3) on every line
+        #[serde(default)]
+        tail: u8,
     },
     /// FileView over a 10-byte file: window [a, b)
     View { a: u64, b: u64, depth: usize },
@@ -135,8 +138,15 @@ fn records_view(path: &std::path::Path, start: u64, end: u64, bed: bool) -> Vec<
     v
 }
 
-fn c18_text(runs: &[(usize, usize)], long_line: Option<(usize, usize)>, final_newline: bool, bed: bool, utf8: bool, crlf: bool, out: &mut Outcome) {
+fn c18_text(runs: &[(usize, usize)], long_line: Option<(usize, usize)>, final_newline: bool, bed: bool, utf8: bool, crlf: bool, tail: u8, out: &mut Outcome) {
     let mut lines = text_lines(runs, long_line, bed, utf8);
+    if tail > 0 {
+        // the minimal BED: chromosome, start, end and nothing else
+        for l in lines.iter_mut() {
+            let three: Vec<&str> = l.split('\t').take(3).collect();
+            *l = three.join("\t") + ["", "", " ", "\t"][tail as usize];
+        }
+    }
     if crlf {
         // CR LF line ends: the CR is the last byte of every terminated line
         let n = lines.len();
@@ -635,12 +645,17 @@ impl Check for C18 {
                         if quick && bed && ll.is_some() && !final_newline {
                             continue;
                         }
-                        v.push(C18Case::Text { runs: runs.clone(), long_line: ll, final_newline, bed, utf8: false, crlf: false });
+                        v.push(C18Case::Text { runs: runs.clone(), long_line: ll, final_newline, bed, utf8: false, crlf: false, tail: 0 });
                         if ll.is_none() || ll.map(|x| x.1) == Some(3) {
-                            v.push(C18Case::Text { runs: runs.clone(), long_line: ll, final_newline, bed, utf8: false, crlf: true });
+                            v.push(C18Case::Text { runs: runs.clone(), long_line: ll, final_newline, bed, utf8: false, crlf: true, tail: 0 });
+                        }
+                        if bed && ll.is_none() {
+                            for (tail, crlf) in [(1u8, false), (1, true), (2, false), (3, false), (2, true)] {
+                                v.push(C18Case::Text { runs: runs.clone(), long_line: ll, final_newline, bed, utf8: false, crlf, tail });
+                            }
                         }
                         if bed && final_newline && (ll.is_none() || ll.map(|x| x.1) == Some(3)) {
-                            v.push(C18Case::Text { runs: runs.clone(), long_line: ll, final_newline, bed, utf8: true, crlf: false });
+                            v.push(C18Case::Text { runs: runs.clone(), long_line: ll, final_newline, bed, utf8: true, crlf: false, tail: 0 });
                         }
                     }
                 }
@@ -648,8 +663,8 @@ impl Check for C18 {
         }
         // one larger file: many lines per run, so that probes land well inside runs
         for final_newline in [true, false] {
-            v.push(C18Case::Text { runs: vec![(0, 40), (1, 1), (2, 25), (3, 2)], long_line: Some((41, 40)), final_newline, bed: false, utf8: false, crlf: false });
-            v.push(C18Case::Text { runs: vec![(0, 40), (1, 1), (2, 25), (3, 2)], long_line: Some((41, 40)), final_newline, bed: true, utf8: true, crlf: false });
+            v.push(C18Case::Text { runs: vec![(0, 40), (1, 1), (2, 25), (3, 2)], long_line: Some((41, 40)), final_newline, bed: false, utf8: false, crlf: false, tail: 0 });
+            v.push(C18Case::Text { runs: vec![(0, 40), (1, 1), (2, 25), (3, 2)], long_line: Some((41, 40)), final_newline, bed: true, utf8: true, crlf: false, tail: 0 });
         }
         let depth = if quick { 2 } else { 3 };
         for a in 0..=10u64 {
@@ -661,7 +676,7 @@ impl Check for C18 {
     }
     fn run(&self, case: &C18Case, out: &mut Outcome) {
         match case {
-            C18Case::Text { runs, long_line, final_newline, bed, utf8, crlf } => c18_text(runs, *long_line, *final_newline, *bed, *utf8, *crlf, out),
+            C18Case::Text { runs, long_line, final_newline, bed, utf8, crlf, tail } => c18_text(runs, *long_line, *final_newline, *bed, *utf8, *crlf, *tail, out),
             C18Case::View { a, b, depth } => c18_view(*a, *b, *depth, out),
         }
     }
@@ -953,7 +968,7 @@ impl Check for C19 {
                 v.push(C19Case::ToolWide { stdin: Some(spelling), extra, width });
             }
         }
-        let maxlen = if quick { 5 } else { 7 };
+        let maxlen = if quick { 5 } else { 6 }; // 12 tokens: 12^6 x 18 = 54 M parses (the 9-token alphabet reached length 7 with 86 M)
         for len in 0..=maxlen {
             if len == 0 {
                 v.push(C19Case::Strings { len, first: 0 });
@@ -1110,7 +1125,7 @@ impl Check for C19 {
             "extra_column_counts": "0..=40", "supplied_schemas": supplied_schemas().len(),
             "grammar_schemas": grammar_schemas().len(), "field_forms": field_forms().len(),
             "mutation_core": if q {60} else {200},
-            "short_strings": format!("all strings of length <= {} over {:?} x {} prefixes x {} suffixes", if q {5} else {7}, ALPHA, PREFIXES.len(), SUFFIXES.len()),
+            "short_strings": format!("all strings of length <= {} over {:?} x {} prefixes x {} suffixes", if q {5} else {6}, ALPHA, PREFIXES.len(), SUFFIXES.len()),
         })
     }
     fn case_cap_s(&self) -> u64 {
